@@ -62,6 +62,14 @@ def queries(ctx, m, nodes):
 
 
 def one_graph(ctx, dn, G, m, nodes, strings):
+    # one graph with all its queries, under a wall-clock alarm (a library call that does not return within the
+    # deadline is abandoned and counted as skipped, never judged)
+    from ..core import case_deadline
+    with case_deadline(ctx, 40):
+        _one_graph_body(ctx, dn, G, m, nodes, strings)
+
+
+def _one_graph_body(ctx, dn, G, m, nodes, strings):
     import dynetx.algorithms as al
     ctx.cases += 1
     ctx.cell("class:" + ("DynDiGraph" if m.directed else "DynGraph"))
